@@ -377,6 +377,7 @@ type invEvent struct {
 }
 
 type delayEvent struct {
+	Step     int
 	Attempts int
 	Cmd      []string
 	Err      string
@@ -456,7 +457,7 @@ func (e *env) clientOption() ClientOption {
 		opt.RetryDelay = func(attempts int, cmd Completed, err error) time.Duration {
 			d := time.Duration(delays[(attempts-1)%len(delays)]) * time.Millisecond
 			e.mu.Lock()
-			e.delayLog = append(e.delayLog, delayEvent{Attempts: attempts, Cmd: append([]string(nil), cmd.Commands()...), Err: fmt.Sprint(err), Delay: d})
+			e.delayLog = append(e.delayLog, delayEvent{Step: e.sim.Step, Attempts: attempts, Cmd: append([]string(nil), cmd.Commands()...), Err: fmt.Sprint(err), Delay: d})
 			e.mu.Unlock()
 			return d
 		}
